@@ -73,10 +73,10 @@ TABLE = {
     "release.name":      (_is_str, [None, 5]),
     "release.short":     (_is_str, [None, 5]),
     "release.version":   (ids.version_ok, ["1.", "1..1", "1.a", "", None, 1.0]),
-    "release.type":      (lambda v: v in ids.RELEASE_TYPES_DOC, ["bogus", "", None, 5]),
+    "release.type":      (lambda v: v in ids.RELEASE_TYPES_DOC, ["bogus", "", None, 5, "Updates", "GA"]),   # (readers fold case, writers do not)
     "release.is_layered": (lambda v: isinstance(v, bool), ["yes", 1, None]),
     "release.internal":  (lambda v: isinstance(v, bool), ["no", 1, None]),
-    "variant.id":        (_alnum, ["a-b", "", "a b", None]),
+    "variant.id":        (_alnum, ["a-b", "", "a b", None, "a_b", "S\u00e9rver", "\u0663"]),
     "variant.name":      (lambda v: _is_str(v) and v != "", ["", None, 5]),
     "variant.type":      (lambda v: v in CI_VARIANT_TYPES, ["bogus", "Variant", None]),
     "variant.arches":    (lambda v: len(v) > 0, [[]]),
